@@ -61,6 +61,8 @@ func run(raw json.RawMessage) (c lib.Case) {
 		return runClassify(in)
 	case "entry":
 		return runEntry(in)
+	case "config":
+		return runConfig(in)
 	case "cluster":
 		return runClusterParent(in, raw)
 	}
@@ -201,7 +203,7 @@ func genOps(rng *rand.Rand, np, nh, n int, scripted, tcp bool) []opj {
 }
 
 func generate(rng *rand.Rand, tier string) []interface{} {
-	nScript, nReal, nCls := 160, 10, 40
+	nScript, nReal, nCls := 500, 10, 40
 	if tier != "quick" {
 		nScript, nReal, nCls = 3000, 120, 400
 	}
@@ -315,6 +317,9 @@ func corpus() []interface{} {
 			{K: "send", P: 1, M: []int{3}}, {K: "restart", P: 0}, {K: "release"}, {K: "send", P: 0, M: []int{5}}}},
 	)
 	ins = append(ins, corpusClassify()...)
+	ins = append(ins,
+		input{Kind: "config", TCP: false, Warm: true}, input{Kind: "config", TCP: true, Warm: true},
+		input{Kind: "config", TCP: true, Warm: false})
 	ins = append(ins, corpusCluster()...)
 	return filterKinds(ins)
 }
